@@ -344,6 +344,7 @@ def _run(ck):
     L.append('Definition fams : list (list (list dy) * list dy * list dy * list Z) := [\n%s].'
              % ';\n'.join('(%s, %s, %s, %s)' % (mat_lit(A), vec_lit(b), vec_lit(g), coq_list([zlit(t) for t in ts])) for _, A, b, g, ts in fams))
     L.append("Eval vm_compute in map (fun '(A, b, g, ts) => check_series A b g ts %s) fams." % tol)
+    L.append("Eval vm_compute in map (fun '(A, b, g, ts) => map pr (map (ddot b) (dpowers A g (S (length A))))) fams.")
     files['rk'] = ck.write_gen('Tables_rk.v', '\n'.join(L) + '\n')
 
     # ------------------------------------------------------------------ 3. SDC configurations for the tie
@@ -503,7 +504,7 @@ def _run(ck):
 
     # ------------------------------------------------------------------ 5. verdicts: RK tables
     vals = [parse_coq_value(v) for v in eval_outputs(outs['rk'][1])]
-    ok_rk, coef_rk, ok_emb, coef_emb2, ok_imex, coef_imex, ok_iemb, ok_fams = vals
+    ok_rk, coef_rk, ok_emb, coef_emb2, ok_imex, coef_imex, ok_iemb, ok_fams, coef_fams = vals
     worst_rk = F(0)
     for d, ok, cq in zip(plain, ok_rk, coef_rk):
         ck.case(key=('rk-table', d['name']), nontrivial=d['stages'] >= 2, sample={'table': 'RK', 'class': d['name'], 'order': d['p']})
@@ -586,6 +587,62 @@ def _run(ck):
             ck.violation('%s: Nystrom coefficient %d is %.15g, not 1/%d' % (lab, bad[0], float(cs[bad[0]]), ts[bad[0]]),
                          {'family': lab, 'index': bad[0], 'coefficient': float(cs[bad[0]]), 'target_reciprocal': ts[bad[0]]},
                          match={'kind': 'rk-order', 'class': lab.split()[0]})
+    # ---- RKN: run the real sweeper on x'' = mu x (harmonic oscillator, k = -mu) and recover the four response polynomials
+    if rkns:
+        from pySDC.implementations.problem_classes.HarmonicOscillator import harmonic_oscillator
+
+        class ho(harmonic_oscillator):          # the Nystrom sweeper asks the problem to assemble f (as the Penning trap does)
+            def build_f(self, f, part, t):
+                return f
+
+        fam_coefs = {lab: [dyfrac(x) for x in cq] for (lab, _, _, _, _), cq in zip(fams, coef_fams)}
+        for d in rkns:
+            cls = [c for c in rkn_classes if c.__name__ == d['name']][0]
+            s_ = len(d['c'])
+            mus = np.cos(np.pi * (np.arange(2 * s_ + 3) + 0.5) / (2 * s_ + 3)) * 0.8
+            resp = {}
+            try:
+                for u0 in ((1.0, 0.0), (0.0, 1.0)):
+                    pos, vel = [], []
+                    for mu_ in mus:
+                        desc = dict(problem_class=ho, problem_params={'k': float(-mu_), 'mu': 0.0, 'u0': u0}, sweeper_class=cls, sweeper_params={},
+                                    level_params={'dt': 1.0, 'restol': -1}, step_params={'maxiter': 1})
+                        c = controller_nonMPI(num_procs=1, controller_params={'logger_level': 40}, description=desc)
+                        P = c.MS[0].levels[0].prob
+                        me = P.dtype_u(P.init)
+                        me.pos[:] = u0[0]
+                        me.vel[:] = u0[1]
+                        uend, _ = c.run(u0=me, t0=0.0, Tend=1.0)
+                        ck.traces += 1
+                        pos.append(float(uend.pos[0]))
+                        vel.append(float(uend.vel[0]))
+                    src = 'pos' if u0[0] else 'vel'
+                    resp['pos<-' + src] = np.polynomial.polynomial.polyfit(mus, pos, s_ + 1)
+                    resp['vel<-' + src] = np.polynomial.polynomial.polyfit(mus, vel, s_ + 1)
+            except Exception as e:
+                ck.violation('running %s on the harmonic oscillator raised %s: %s' % (d['name'], type(e).__name__, e), {'class': d['name']},
+                             match={'kind': 'rk-run', 'class': d['name']})
+                continue
+            ck.case(key=('rkn-run', d['name']), nontrivial=True, sample={'rkn-run': d['name'], 'order': d['p']})
+            for lab, lead, sh in (('pos<-pos', 1.0, 2), ('pos<-vel', 1.0, 3), ('vel<-pos', 0.0, 1), ('vel<-vel', 1.0, 2)):
+                model = [lead] + [float(x) for x in fam_coefs[d['name'] + ' ' + lab]]       # coefficient of mu^0, mu^1, ...
+                got = resp[lab]
+                for j in range(len(got)):
+                    mj = model[j] if j < len(model) else 0.0
+                    if abs(got[j] - mj) > 1e-10:
+                        ck.violation('%s %s: the real step differs from the tableau model in the coefficient of mu^%d (%.15g vs %.15g)'
+                                     % (d['name'], lab, j, got[j], mj), {'class': d['name'], 'response': lab, 'power': j, 'impl': float(got[j]), 'model': mj},
+                                     match={'kind': 'rk-run-series', 'class': d['name']}, no_input=True)
+                        break
+                # oracle: exact flow of x'' = mu x: cosh/sinh series, powers of dt up to the documented order
+                for j in range(1, len(got)):
+                    if 2 * (j - 1) + sh <= d['p'] and abs(got[j] - 1.0 / math.factorial(2 * (j - 1) + sh)) > 1e-10:
+                        ck.violation('%s %s: coefficient of mu^%d is %.15g, not 1/%d! (documented order %d)'
+                                     % (d['name'], lab, j, got[j], 2 * (j - 1) + sh, d['p']),
+                                     {'class': d['name'], 'response': lab, 'power': j, 'impl': float(got[j])},
+                                     match={'kind': 'rk-run-order', 'class': d['name']})
+                        break
+
     ck.obligation('order validators evaluated on %d RK, %d embedded, %d IMEX, %d embedded IMEX tableaux and %d Nystrom families'
                   % (len(plain), len(embs), len(imexs), len(iembs), len(fams)), True)
     ck.cov['worst_rk_coefficient_deviation'] = float(worst_rk)
@@ -736,3 +793,54 @@ def _run(ck):
                     ck.violation('%s: u_secondary differs from the tableau model in Taylor coefficient %d' % (d['name'], mm2[0]),
                                  dict(base, coefficient_index=mm2[0]), match={'kind': 'rk-run-series', 'class': d['name']}, no_input=True)
     ck.cov['worst_scaled_rk_tie_error'] = worst_rk_tie
+
+    # ------------------------------------------------------------------ 8. the order the step-size controller assumes
+    # Real AdaptivityRK on one step: choose e_tol = 64 * estimate, take the dt_new the controller proposes and measure the
+    # estimate of a step with dt_new.  If uend - u_secondary = C dt^q' with q' >= q (= update_order used by the controller),
+    # then  e_new / (e_tol beta^q) = beta^(q'-q) 64^(q'/q-1) (1 + O(dt)) >= ~1;  q' = q-1 gives <= 0.5.
+    from pySDC.implementations.convergence_controller_classes.adaptivity import AdaptivityRK
+
+    def adaptive_step(cls, dt, e_tol):
+        if issubclass(cls, RKm.RungeKuttaIMEX):
+            pb = dict(problem_class=imex_dahlquist, problem_params={'lamI': np.array([-0.6 + 0j]), 'lamE': np.array([-0.4 + 0j]), 'u0': 1.0})
+        else:
+            pb = dict(problem_class=testequation0d, problem_params={'lambdas': np.array([-1.0 + 0j]), 'u0': 1.0})
+        desc = dict(sweeper_class=cls, sweeper_params={}, level_params={'dt': dt, 'restol': -1}, step_params={'maxiter': 1},
+                    convergence_controllers={AdaptivityRK: {'e_tol': e_tol}}, **pb)
+        c = controller_nonMPI(num_procs=1, controller_params={'logger_level': 40, 'mssdc_jac': False}, description=desc)
+        P = c.MS[0].levels[0].prob
+        uend, _ = c.run(u0=P.u_exact(0), t0=0.0, Tend=dt)
+        Lv = c.MS[0].levels[0]
+        cc = [x for x in c.convergence_controllers if isinstance(x, AdaptivityRK)][0]
+        est = abs(np.asarray(uend) - np.asarray(Lv.sweep.u_secondary))[0]
+        return est, Lv.status.dt_new, int(cc.params.update_order), float(cc.params.beta)
+
+    ratios = {}
+    for d in rks:
+        if not d['emb']:
+            continue
+        c = d['cls']
+        try:
+            dt0 = 0.02
+            e0, _, q, beta = adaptive_step(c, dt0, 1.0)
+            e_tol = 64 * e0
+            _, dtn, q, beta = adaptive_step(c, dt0, e_tol)
+            e2, _, _, _ = adaptive_step(c, dtn, 1.0)
+        except Exception as e:
+            ck.violation('AdaptivityRK step with %s raised %s: %s' % (d['name'], type(e).__name__, e), {'class': d['name']},
+                         match={'kind': 'adaptivity-run', 'class': d['name']})
+            continue
+        ck.traces += 3
+        ck.case(key=('adaptivity', d['name']), nontrivial=True)
+        ratio = e2 / (e_tol * beta ** q)
+        ratios[d['name']] = round(float(ratio), 4)
+        if q != d['q']:
+            ck.violation('AdaptivityRK assumes update order %d for %s but get_update_order() = %d' % (q, d['name'], d['q']),
+                         {'class': d['name'], 'assumed': q, 'get_update_order': d['q']}, match={'kind': 'adaptivity-order', 'class': d['name']})
+        if not (ratio > 0.75):
+            ck.violation('%s with AdaptivityRK: the proposed step size does not bring the embedded estimate to e_tol*beta^q (ratio %.3f): '
+                         'uend - u_secondary is of lower order than the controller assumes (q = %d)' % (d['name'], ratio, q),
+                         {'call': 'controller_nonMPI + AdaptivityRK, Dahlquist lambda=-1', 'class': d['name'], 'dt': dt0, 'e_tol': e_tol,
+                          'estimate_dt': e0, 'dt_new': dtn, 'estimate_dt_new': e2, 'beta': beta, 'assumed_order': q, 'ratio': float(ratio)},
+                         match={'kind': 'adaptivity-order', 'class': d['name']})
+    ck.cov['adaptivity_ratio_e_new_over_etol_beta_q'] = ratios
